@@ -187,6 +187,9 @@ def f2_index_shape(F, r):
                         for k, v, p in src:
                             if k == "arg":
                                 nm = fn["names"].get(str(v), f"arg{v}")
+                                # roles by name or, for a renamed parameter, by the position the trait fixes (self, profile/route, from, to, ..)
+                                if nm not in ("from", "to", "self") and not p and fn["kind"] != "Closure":
+                                    nm = {3: "from", 4: "to"}.get(v, nm)
                                 out.add(nm + ("." + ".".join(p) if p else ""))
                             elif k == "local":
                                 out.add(fn["names"].get(str(v), f"_{v}"))
